@@ -58,9 +58,10 @@ type LoopSpec struct {
 }
 
 type Clause struct {
-	Text string
-	E    Expr
-	Name string // optional label
+	Text  string
+	E     Expr
+	Name  string   // optional label
+	Props []string // optional: properties this clause belongs to (default: all of the function's)
 }
 
 type Contract struct {
@@ -77,6 +78,31 @@ type Contract struct {
 	Trusted  bool
 	Pure     bool
 	Line     int
+	File     string
+	Props    []string // properties this function is under contract for
+	NoNil    bool     // rte.nil obligations are not generated (stated assumption)
+	Lemma    bool     // ghost client (lemma) function
+}
+
+func (c *Contract) hasProp(id string) bool {
+	for _, p := range c.Props {
+		if p == id {
+			return true
+		}
+	}
+	return false
+}
+
+func (cl *Clause) forProp(id string) bool {
+	if len(cl.Props) == 0 || id == "" {
+		return true
+	}
+	for _, p := range cl.Props {
+		if p == id {
+			return true
+		}
+	}
+	return false
 }
 
 type GhostFunc struct {
@@ -87,6 +113,8 @@ type GhostFunc struct {
 	PNames  []string
 	Def     Expr // optional definition (pred)
 	DefText string
+	Inverse string // replay: Go function building an argument from a wanted result (witness constructor)
+	Guard   string // replay: ghost predicate that must hold in the model for the inverse to apply
 }
 
 type Spec struct {
@@ -98,16 +126,25 @@ type Spec struct {
 	}
 }
 
+func newSpec() *Spec {
+	return &Spec{Contracts: map[string]*Contract{}, Ghosts: map[string]*GhostFunc{}}
+}
+
 func loadSpec(path string) (*Spec, error) {
+	sp := newSpec()
+	return sp, sp.loadFile(path, "")
+}
+
+// loadFile reads the //@ lines of one file; pkg is the package path contracts belong to unless a
+// "//@ package" directive says otherwise.
+func (sp *Spec) loadFile(path string, pkg string) error {
 	f, err := os.Open(path)
 	if err != nil {
-		return nil, err
+		return err
 	}
 	defer f.Close()
-	sp := &Spec{Contracts: map[string]*Contract{}, Ghosts: map[string]*GhostFunc{}}
 	sc := bufio.NewScanner(f)
 	sc.Buffer(make([]byte, 1<<20), 1<<20)
-	pkg := ""
 	var cur *Contract
 	var lines []struct {
 		n int
@@ -117,10 +154,14 @@ func loadSpec(path string) (*Spec, error) {
 	for sc.Scan() {
 		ln++
 		s := sc.Text()
-		if !strings.HasPrefix(strings.TrimSpace(s), "//@") {
+		s = strings.TrimSpace(s)
+		if strings.HasPrefix(s, "// @") { // gofmt may have rewritten the marker
+			s = "//@" + s[4:]
+		}
+		if !strings.HasPrefix(s, "//@") {
 			continue
 		}
-		s = strings.TrimPrefix(strings.TrimSpace(s), "//@")
+		s = strings.TrimPrefix(s, "//@")
 		if strings.HasPrefix(s, "   ") && len(lines) > 0 { // continuation
 			lines[len(lines)-1].s += " " + strings.TrimSpace(s)
 			continue
@@ -138,8 +179,11 @@ func loadSpec(path string) (*Spec, error) {
 		case "package":
 			pkg = rest
 			cur = nil
-		case "func", "extern":
-			c := &Contract{Pkg: pkg, Mode: "int", Loops: map[int]*LoopSpec{}, Line: l.n, Extern: word == "extern"}
+		case "func", "extern", "lemma", "iface":
+			c := &Contract{Pkg: pkg, Mode: "int", Loops: map[int]*LoopSpec{}, Line: l.n, File: path, Extern: word == "extern", Lemma: word == "lemma"}
+			if word == "iface" {
+				rest = "iface:" + rest
+			}
 			// key [ (params) [(results)] ]
 			key := rest
 			if i := strings.Index(rest, " :: "); i >= 0 { // "key :: p1, p2 -> r1, r2"
@@ -157,8 +201,15 @@ func loadSpec(path string) (*Spec, error) {
 				c.Pkg, key = key[:j], key[j+2:]
 			}
 			c.Key = key
+			if _, dup := sp.Contracts[c.Pkg+"::"+key]; dup {
+				return fail(fmt.Errorf("duplicate contract for %s", key))
+			}
 			sp.Contracts[c.Pkg+"::"+key] = c
 			cur = c
+		case "props":
+			cur.Props = append(cur.Props, strings.Fields(strings.ReplaceAll(rest, ",", " "))...)
+		case "nonil":
+			cur.NoNil = true
 		case "mode":
 			cur.Mode = rest
 		case "pure":
@@ -167,16 +218,21 @@ func loadSpec(path string) (*Spec, error) {
 			cur.Trusted = true
 		case "requires", "ensures":
 			name := ""
+			var cprops []string
 			if strings.HasPrefix(rest, "[") {
 				j := strings.Index(rest, "]")
 				name = rest[1:j]
 				rest = strings.TrimSpace(rest[j+1:])
+				if k := strings.Index(name, "@"); k >= 0 {
+					cprops = strings.Fields(strings.ReplaceAll(name[k+1:], ",", " "))
+					name = strings.TrimSpace(name[:k])
+				}
 			}
 			e, err := parseExpr(rest)
 			if err != nil {
-				return nil, fail(err)
+				return fail(err)
 			}
-			cl := Clause{Text: rest, E: e, Name: name}
+			cl := Clause{Text: rest, E: e, Name: name, Props: cprops}
 			if word == "requires" {
 				cur.Requires = append(cur.Requires, cl)
 			} else {
@@ -189,12 +245,12 @@ func loadSpec(path string) (*Spec, error) {
 			var kind string
 			n, _ := fmt.Sscanf(rest, "%d %s", &k, &kind)
 			if n != 2 {
-				return nil, fail(fmt.Errorf("bad loop clause"))
+				return fail(fmt.Errorf("bad loop clause"))
 			}
 			body := strings.TrimSpace(rest[strings.Index(rest, kind)+len(kind):])
 			e, err := parseExpr(body)
 			if err != nil {
-				return nil, fail(err)
+				return fail(err)
 			}
 			ls := cur.Loops[k]
 			if ls == nil {
@@ -224,27 +280,36 @@ func loadSpec(path string) (*Spec, error) {
 				tail = strings.TrimSpace(strings.TrimPrefix(tail, ":="))
 				e, err := parseExpr(tail)
 				if err != nil {
-					return nil, fail(err)
+					return fail(err)
 				}
 				g.Def, g.DefText = e, tail
 			} else {
-				g.Result = tail
+				fs := strings.Fields(tail)
+				g.Result = fs[0]
+				for i := 1; i+1 < len(fs); i += 2 {
+					switch fs[i] {
+					case "inverse":
+						g.Inverse = fs[i+1]
+					case "guard":
+						g.Guard = fs[i+1]
+					}
+				}
 			}
 			sp.Ghosts[g.Name] = g
 		case "axiom":
 			e, err := parseExpr(rest)
 			if err != nil {
-				return nil, fail(err)
+				return fail(err)
 			}
 			sp.Axioms = append(sp.Axioms, struct {
 				Pkg string
 				C   Clause
 			}{pkg, Clause{Text: rest, E: e}})
 		default:
-			return nil, fail(fmt.Errorf("unknown directive %q", word))
+			return fail(fmt.Errorf("unknown directive %q", word))
 		}
 	}
-	return sp, nil
+	return nil
 }
 
 func splitWord(s string) (string, string) {
